@@ -196,6 +196,8 @@ structure SubRec where
       4 = watch (post-policy) -/
   kind : Nat
   e0 : List Nat
+  /-- ghost: the consumer task has read the peer table (`e0` is set) -/
+  cap : Bool := false
   deriving DecidableEq, Repr, Inhabited
 
 structure Thread where
@@ -220,6 +222,10 @@ structure Thread where
   drop : Option (List Nat) := none
   /-- ghost: subscription being snapshotted and the shards already walked -/
   snapping : Option (Nat × List Nat) := none
+  /-- ghost: phase of the session task: 0 idle, 1 establishing (`session_addrs` set, PeerUp not yet
+      published), 2 up (PeerUp published), 3 teardown (`session_addrs` cleared, PeerDown not yet
+      published) -/
+  ph : Nat := 0
   mysubs : List SubRec := []
   rets : List Ret := []
   deriving Repr, Inhabited
@@ -423,19 +429,20 @@ def step (me : Nat) (st : St) : Option St :=
         let ap := st.addpath.filter (· != (k, me))
         some { st with addpath := if t.ap then ap ++ [(k, me)] else ap, threads := updT st.threads me t }
     | .captureE0 =>
-        let ms := setLast t.mysubs fun r => { r with e0 := st.established }
+        let ms := setLast t.mysubs fun r => { r with e0 := st.established, cap := true }
         some { st with threads := updT st.threads me { t with mysubs := ms } }
     | .setEst b =>
         let est := st.established.filter (· != me)
-        some { st with established := if b then est ++ [me] else est, threads := updT st.threads me t }
+        some { st with established := if b then est ++ [me] else est
+                       threads := updT st.threads me { t with ph := if b then 1 else 3 } }
     | .sendUp =>
-        some { st with queues := send st.queues st.subscribers [.up me], threads := updT st.threads me t }
+        some { st with queues := send st.queues st.subscribers [.up me], threads := updT st.threads me { t with ph := 2 } }
     | .sendDown =>
         some { st with queues := send st.queues st.subscribers [.down me]
-                       threads := updT st.threads me { t with drop := none, count := 0, gen := t.gen + 1 } }
+                       threads := updT st.threads me { t with drop := none, count := 0, gen := t.gen + 1, ph := 0 } }
     | .sendDownGr =>
         some { st with queues := send st.queues st.subscribers [.down me]
-                       threads := updT st.threads me { t with drop := none, count := 0, gen := t.gen + 1 } }
+                       threads := updT st.threads me { t with drop := none, count := 0, gen := t.gen + 1, ph := 0 } }
     | .setPol p => some { st with policy := p, threads := updT st.threads me t }
     | .register want kind =>
         let s := st.nextSub
@@ -443,7 +450,7 @@ def step (me : Nat) (st : St) : Option St :=
           subscribers := st.subscribers ++ [s]
           nextSub := s + 1
           threads := updT st.threads me
-            { t with mysubs := t.mysubs ++ [⟨s, want, true, kind, []⟩], snapping := if want then some (s, []) else none } }
+            { t with mysubs := t.mysubs ++ [⟨s, want, true, kind, [], false⟩], snapping := if want then some (s, []) else none } }
     | .snap k =>
         match t.snapping with
         | some (s, l) =>
@@ -624,23 +631,42 @@ def ctlOf : List Ev → List Ev
   | .eos :: r => .eos :: ctlOf r
   | _ :: r => ctlOf r
 
+/-! ### The consumer tasks as transition systems over the events they receive
+
+  All three forwarding consumers (`BmpClient::serve` after EndOfSnapshot, the gRPC `watch_event`
+  stream from its first event) keep one piece of state: the set of peers announced on the
+  connection (`sent_peer_up`, initialised from the peer table when the task starts forwarding).
+  One received event = one transition; the output is the list of events let through. -/
+
+/-- one transition: (new announced set, events written out).  A route event passes only for an
+    announced peer (S28e / S28f), a PeerUp always passes and marks the peer announced, a PeerDown
+    passes only for an announced peer and un-announces it (S28d / S28g), EndOfSnapshot is consumed. -/
+def consStep (sent : List Nat) : Ev → List Nat × List Ev
+  | .pre k v => (sent, if k.peer ∈ sent then [.pre k v] else [])
+  | .post k v => (sent, if k.peer ∈ sent then [.post k v] else [])
+  | .up p => (trackPeerUp sent p, [.up p])
+  | .down p => ((trackPeerDown sent p).2, if (trackPeerDown sent p).1 then [.down p] else [])
+  | .eos => (sent, [])
+
+/-- the output stream of the task on the input stream `q`, starting with `sent` announced -/
+def consRun : List Ev → List Nat → List Ev
+  | [], _ => []
+  | e :: r, sent => (consStep sent e).2 ++ consRun r (consStep sent e).1
+
+/-- the announced set after the input stream -/
+def sentAfter : List Ev → List Nat → List Nat
+  | [], sent => sent
+  | e :: r, sent => sentAfter r (consStep sent e).1
+
+/-- the items of (map `post?`, `key`) in the output stream -/
+def consHist (post : Bool) (key : Key) (q : List Ev) (sent : List Nat) : List Item :=
+  if post then histPost key (consRun q sent) else histPre key (consRun q sent)
+
 /-- What `BmpClient::serve` writes on its connection about (map `post?`, `key`): the flushed
     snapshot entry if the key's peer was established at EndOfSnapshot, then every live route
     event of the key whose peer has been announced on the connection (repaired: S28e), and a
     PeerDown of the key's peer whenever `send_peer_down` lets it out. -/
-def wireLive (post : Bool) (key : Key) : List Ev → List Nat → List Item
-  | [], _ => []
-  | .pre k v :: r, sent =>
-      if !post && k = key && decide (k.peer ∈ sent) then itemOf v :: wireLive post key r sent
-      else wireLive post key r sent
-  | .post k v :: r, sent =>
-      if post && k = key && decide (k.peer ∈ sent) then itemOf v :: wireLive post key r sent
-      else wireLive post key r sent
-  | .up p :: r, sent => wireLive post key r (trackPeerUp sent p)
-  | .down p :: r, sent =>
-      let (f, sent') := trackPeerDown sent p
-      if f && p = key.peer then .dn :: wireLive post key r sent' else wireLive post key r sent'
-  | .eos :: r, sent => wireLive post key r sent
+def wireLive (post : Bool) (key : Key) (q : List Ev) (sent : List Nat) : List Item := consHist post key q sent
 
 def wireHist (post : Bool) (key : Key) (q : List Ev) (e0 : List Nat) : List Item :=
   let (sp, spo) := drainSnapshot q ([], [])
@@ -662,19 +688,7 @@ def mrtHist (key : Key) : List Ev → List Item
     requested map whose peer has been announced on the stream (snapshot and live alike: they are
     forwarded as they are read), and a peer state-down whenever it is let out (repaired: only for
     peers announced on the stream). -/
-def watchHist (post : Bool) (key : Key) : List Ev → List Nat → List Item
-  | [], _ => []
-  | .pre k v :: r, sent =>
-      if !post && k = key && decide (k.peer ∈ sent) then itemOf v :: watchHist post key r sent
-      else watchHist post key r sent
-  | .post k v :: r, sent =>
-      if post && k = key && decide (k.peer ∈ sent) then itemOf v :: watchHist post key r sent
-      else watchHist post key r sent
-  | .up p :: r, sent => watchHist post key r (trackPeerUp sent p)
-  | .down p :: r, sent =>
-      let (f, sent') := trackPeerDown sent p
-      if f && p = key.peer then .dn :: watchHist post key r sent' else watchHist post key r sent'
-  | .eos :: r, sent => watchHist post key r sent
+def watchHist (post : Bool) (key : Key) (q : List Ev) (sent : List Nat) : List Item := consHist post key q sent
 
 /-- the peer events about `p` on a watch stream: TYPE_INIT for the peers established when the
     stream started, then the state changes let out -/
